@@ -134,7 +134,7 @@ def gate_and_runner(chk, prop):
 
 
 def run_check(chk, replay, prop, gen_cases, evaluate, rule, model_ops=('dec', 'renc', 'dflt'), configs=None,
-              model_norm=None, extra_dist=None):
+              model_norm=None, extra_dist=None, post=None):
     """gen_cases(gb, rng, tier) -> [case dict with 'line', ...]; evaluate(gb, case, out_line) -> [(reason, cls)]"""
     gb = genrun.setup(chk, configs=configs)
     gate, runner = gate_and_runner(chk, prop)
@@ -143,7 +143,7 @@ def run_check(chk, replay, prop, gen_cases, evaluate, rule, model_ops=('dec', 'r
         return chk.finish()
     rng = random.Random(chk.seed)
     if replay is not None and replay.get('kind') in ('case', 'correspondence') and replay.get('case'):
-        cases = [replay['case']]
+        cases = [replay['case']] + list(replay['case'].get('companions', []))
     else:
         cases = gen_cases(gb, rng, chk.tier)
     lines = [c['line'] for c in cases]
@@ -151,6 +151,10 @@ def run_check(chk, replay, prop, gen_cases, evaluate, rule, model_ops=('dec', 'r
     failing = []
     for c, o in zip(cases, outs):
         for why, cls in (evaluate(gb, c, o) or []):
+            failing.append((c, why, cls, o))
+    if post is not None:
+        # oracles that relate several case lines (e.g. keep build vs plain build on the same bytes)
+        for c, why, cls, o in post(gb, cases, outs):
             failing.append((c, why, cls, o))
     # ---- correspondence with the extracted model
     mism = []
